@@ -1,9 +1,440 @@
 //! Structural request shapes for the real-server family (C18): each RPC in variants where optional
-//! message parts are absent, enums are out of range, paths / arrays / texts are empty or huge.
+//! message parts are absent, enums are out of range, paths / arrays / texts are empty or huge,
+//! timestamps extreme.  `call_shape` answers -2 for a variant number that does not exist.
 use crate::codec::Tok;
+use crate::fam_srv::{code_of, first, sdv_dp, sig_name, v1_update, v2_dp, v2_sig, with_auth};
+use databroker_proto::kuksa::val::v1 as p1;
+use databroker_proto::kuksa::val::v2 as p2;
+use databroker_proto::sdv::databroker::v1 as ps;
 use std::collections::HashMap;
 use tonic::transport::Channel;
 
-pub async fn call_shape(_ch: &Channel, _rpc: Tok, _variant: Tok, _k: Tok, _hdr: &Option<String>, _ids: &HashMap<String, i32>) -> Tok {
-    -2
+fn long(n: usize) -> String {
+    let mut s = String::from("Srv");
+    while s.len() < n {
+        s.push_str(".Abcdefghi");
+    }
+    s.truncate(n);
+    s
+}
+
+fn ts(seconds: i64, nanos: i32) -> Option<prost_types::Timestamp> {
+    Some(prost_types::Timestamp { seconds, nanos })
+}
+
+fn v1_entry(path: &str, value: Option<p1::Datapoint>, target: Option<p1::Datapoint>, fields: Vec<i32>) -> p1::EntryUpdate {
+    p1::EntryUpdate {
+        entry: Some(p1::DataEntry { path: path.to_string(), value, actuator_target: target, metadata: None }),
+        fields,
+    }
+}
+
+fn v1_i32(k: Tok) -> p1::Datapoint {
+    p1::Datapoint { timestamp: None, value: Some(p1::datapoint::Value::Int32(k as i32)) }
+}
+
+pub async fn call_shape(ch: &Channel, rpc: Tok, variant: Tok, k: Tok, hdr: &Option<String>, ids: &HashMap<String, i32>) -> Tok {
+    let name = sig_name(rpc);
+    let id = *ids.get(&name).unwrap_or(&0);
+    let mut v1 = p1::val_client::ValClient::new(ch.clone()).max_decoding_message_size(64 << 20).max_encoding_message_size(64 << 20);
+    let mut v2 = p2::val_client::ValClient::new(ch.clone()).max_decoding_message_size(64 << 20).max_encoding_message_size(64 << 20);
+    let mut sb = ps::broker_client::BrokerClient::new(ch.clone()).max_decoding_message_size(64 << 20);
+    let mut sc = ps::collector_client::CollectorClient::new(ch.clone()).max_decoding_message_size(64 << 20);
+    let value_f = p1::Field::Value as i32;
+    match rpc {
+        // ---------------- kuksa.val.v1 Get
+        0 => {
+            let er = |path: String, view: i32, fields: Vec<i32>| p1::EntryRequest { path, view, fields };
+            let entries = match variant {
+                1 => vec![],
+                2 => vec![er("".into(), 1, vec![value_f])],
+                3 => vec![er(long(1001), 1, vec![value_f])],
+                4 => vec![er(long(100_000), 1, vec![value_f])],
+                5 => vec![er(name.clone(), 99, vec![value_f])],
+                6 => vec![er(name.clone(), 10, vec![99])],
+                7 => vec![er(name.clone(), 10, vec![])],
+                8 => vec![er("Srv..R0".into(), 1, vec![value_f])],
+                9 => vec![er("**".into(), 20, vec![])],
+                10 => (0..1000).map(|_| er(name.clone(), 20, vec![])).collect(),
+                11 => vec![er(name.clone(), -1, vec![-5])],
+                12 => vec![er("*".into(), 3, vec![17, 20, 30, 40])],
+                _ => return -2,
+            };
+            code_of(v1.get(with_auth(p1::GetRequest { entries }, hdr)).await)
+        }
+        // ---------------- kuksa.val.v1 Set / StreamedUpdate
+        1 | 2 => {
+            let updates = match variant {
+                1 => vec![],
+                2 => vec![p1::EntryUpdate { entry: None, fields: vec![value_f] }],
+                3 => vec![v1_entry(&name, None, None, vec![value_f])],
+                4 => vec![v1_entry(&name, Some(v1_i32(k)), None, vec![99])],
+                5 => vec![v1_entry(&name, Some(v1_i32(k)), None, vec![])],
+                6 => vec![v1_entry(&name, Some(p1::Datapoint { timestamp: None, value: None }), None, vec![value_f])],
+                7 => vec![v1_entry("", Some(v1_i32(k)), None, vec![value_f])],
+                8 => vec![v1_entry(&long(100_000), Some(v1_i32(k)), None, vec![value_f])],
+                9 => vec![v1_entry(
+                    &name,
+                    Some(p1::Datapoint {
+                        timestamp: None,
+                        value: Some(p1::datapoint::Value::Int32Array(p1::Int32Array { values: vec![7; 100_000] })),
+                    }),
+                    None,
+                    vec![value_f],
+                )],
+                10 => vec![v1_entry(&name, Some(v1_i32(k)), Some(v1_i32(k)), vec![value_f, p1::Field::ActuatorTarget as i32, 10])],
+                11 => vec![v1_entry(
+                    &name,
+                    Some(p1::Datapoint { timestamp: None, value: Some(p1::datapoint::Value::String("x".repeat(100_000))) }),
+                    None,
+                    vec![value_f],
+                )],
+                12 => vec![v1_entry(
+                    &name,
+                    Some(p1::Datapoint { timestamp: ts(i64::MAX, -1), value: Some(p1::datapoint::Value::Int32(1)) }),
+                    None,
+                    vec![value_f],
+                )],
+                13 => vec![v1_entry(
+                    &name,
+                    Some(p1::Datapoint { timestamp: ts(i64::MIN, i32::MAX), value: Some(p1::datapoint::Value::Int32(1)) }),
+                    None,
+                    vec![value_f],
+                )],
+                14 => (0..1000).map(|_| v1_update(&name, k)).collect(),
+                15 => vec![p1::EntryUpdate {
+                    entry: Some(p1::DataEntry {
+                        path: name.clone(),
+                        value: None,
+                        actuator_target: None,
+                        metadata: Some(p1::Metadata { data_type: 99, entry_type: 99, ..Default::default() }),
+                    }),
+                    fields: vec![10, 11, 13],
+                }],
+                _ => return -2,
+            };
+            if rpc == 1 {
+                code_of(v1.set(with_auth(p1::SetRequest { updates }, hdr)).await)
+            } else if variant == 1 {
+                let reqs: Vec<p1::StreamedUpdateRequest> = vec![];
+                first(v1.streamed_update(with_auth(tokio_stream::iter(reqs), hdr)).await).await
+            } else {
+                let reqs = vec![p1::StreamedUpdateRequest { updates: updates.clone() }, p1::StreamedUpdateRequest { updates }];
+                first(v1.streamed_update(with_auth(tokio_stream::iter(reqs), hdr)).await).await
+            }
+        }
+        // ---------------- kuksa.val.v1 Subscribe
+        3 => {
+            let se = |path: String, view: i32, fields: Vec<i32>| p1::SubscribeEntry { path, view, fields };
+            let entries = match variant {
+                1 => vec![],
+                2 => vec![se("".into(), 1, vec![value_f])],
+                3 => vec![se(name.clone(), 99, vec![value_f])],
+                4 => vec![se(name.clone(), 1, vec![99])],
+                5 => vec![se(long(100_000), 1, vec![value_f])],
+                6 => vec![se("**".into(), 20, vec![])],
+                7 => vec![se(name.clone(), 1, vec![]), se("Srv..".into(), 1, vec![value_f])],
+                8 => (0..500).map(|_| se(name.clone(), 20, vec![value_f, 3, 10])).collect(),
+                _ => return -2,
+            };
+            first(v1.subscribe(with_auth(p1::SubscribeRequest { entries }, hdr)).await).await
+        }
+        // ---------------- kuksa.val.v2 GetValue / GetValues
+        5 | 6 => {
+            let sid = match variant {
+                1 => None,
+                2 => Some(p2::SignalId { signal: None }),
+                3 => v2_sig(""),
+                4 => v2_sig(&long(100_000)),
+                5 => Some(p2::SignalId { signal: Some(p2::signal_id::Signal::Id(-1)) }),
+                6 => Some(p2::SignalId { signal: Some(p2::signal_id::Signal::Id(i32::MAX)) }),
+                7 => v2_sig("Srv.*"),
+                _ => return -2,
+            };
+            if rpc == 5 {
+                code_of(v2.get_value(with_auth(p2::GetValueRequest { signal_id: sid }, hdr)).await)
+            } else {
+                let signal_ids = match (variant, sid) {
+                    (1, _) => vec![],
+                    (7, _) => (0..10_000).map(|_| v2_sig(&name).unwrap()).collect(),
+                    (_, Some(s)) => vec![v2_sig(&name).unwrap(), s],
+                    (_, None) => vec![],
+                };
+                code_of(v2.get_values(with_auth(p2::GetValuesRequest { signal_ids }, hdr)).await)
+            }
+        }
+        // ---------------- kuksa.val.v2 Subscribe / SubscribeById
+        7 => {
+            let (signal_paths, buffer_size) = match variant {
+                1 => (vec![], 0),
+                2 => (vec![name.clone()], u32::MAX),
+                3 => (vec!["".to_string()], 0),
+                4 => (vec!["Srv.Unknown".to_string()], 0),
+                5 => (vec![name.clone()], 1001),
+                6 => ((0..10_000).map(|_| name.clone()).collect(), 1000),
+                7 => (vec![long(100_000)], 1),
+                _ => return -2,
+            };
+            first(v2.subscribe(with_auth(p2::SubscribeRequest { signal_paths, buffer_size }, hdr)).await).await
+        }
+        8 => {
+            let (signal_ids, buffer_size) = match variant {
+                1 => (vec![], 0),
+                2 => (vec![-1], 0),
+                3 => (vec![id], u32::MAX),
+                4 => (vec![i32::MAX, i32::MIN], 1000),
+                5 => ((0..10_000).map(|_| id).collect(), 0),
+                _ => return -2,
+            };
+            first(v2.subscribe_by_id(with_auth(p2::SubscribeByIdRequest { signal_ids, buffer_size }, hdr)).await).await
+        }
+        // ---------------- kuksa.val.v2 Actuate / BatchActuate
+        9 | 10 => {
+            let one = match variant {
+                1 => p2::ActuateRequest { signal_id: None, value: v2_dp(k).value },
+                2 => p2::ActuateRequest { signal_id: v2_sig(&name), value: None },
+                3 => p2::ActuateRequest { signal_id: v2_sig(&name), value: Some(p2::Value { typed_value: None }) },
+                4 => p2::ActuateRequest { signal_id: v2_sig(&long(100_000)), value: v2_dp(k).value },
+                5 => p2::ActuateRequest { signal_id: Some(p2::SignalId { signal: None }), value: v2_dp(k).value },
+                6 => p2::ActuateRequest {
+                    signal_id: v2_sig(&name),
+                    value: Some(p2::Value {
+                        typed_value: Some(p2::value::TypedValue::StringArray(p2::StringArray { values: vec!["x".repeat(1000); 1000] })),
+                    }),
+                },
+                7 => p2::ActuateRequest { signal_id: Some(p2::SignalId { signal: Some(p2::signal_id::Signal::Id(i32::MIN)) }), value: None },
+                _ => return -2,
+            };
+            if rpc == 9 {
+                code_of(v2.actuate(with_auth(one, hdr)).await)
+            } else {
+                let actuate_requests = if variant == 7 { vec![] } else { vec![one.clone(), one] };
+                code_of(v2.batch_actuate(with_auth(p2::BatchActuateRequest { actuate_requests }, hdr)).await)
+            }
+        }
+        // ---------------- kuksa.val.v2 ListMetadata
+        11 => {
+            let (root, filter) = match variant {
+                1 => ("".to_string(), "".to_string()),
+                2 => ("**".to_string(), "".to_string()),
+                3 => (long(100_000), "".to_string()),
+                4 => ("Srv".to_string(), "x".repeat(100_000)),
+                5 => ("Srv.*".to_string(), "*".to_string()),
+                6 => ("Srv..".to_string(), "".to_string()),
+                7 => ("*.**.*".to_string(), "\u{0}".to_string()),
+                _ => return -2,
+            };
+            code_of(v2.list_metadata(with_auth(p2::ListMetadataRequest { root, filter }, hdr)).await)
+        }
+        // ---------------- kuksa.val.v2 PublishValue
+        12 => {
+            let req = match variant {
+                1 => p2::PublishValueRequest { signal_id: None, data_point: Some(v2_dp(k)) },
+                2 => p2::PublishValueRequest { signal_id: v2_sig(&name), data_point: None },
+                3 => p2::PublishValueRequest { signal_id: v2_sig(&name), data_point: Some(p2::Datapoint { timestamp: None, value: None }) },
+                4 => p2::PublishValueRequest {
+                    signal_id: v2_sig(&name),
+                    data_point: Some(p2::Datapoint { timestamp: None, value: Some(p2::Value { typed_value: None }) }),
+                },
+                5 => p2::PublishValueRequest {
+                    signal_id: v2_sig(&name),
+                    data_point: Some(p2::Datapoint {
+                        timestamp: None,
+                        value: Some(p2::Value {
+                            typed_value: Some(p2::value::TypedValue::Int32Array(p2::Int32Array { values: vec![1; 100_000] })),
+                        }),
+                    }),
+                },
+                6 => p2::PublishValueRequest {
+                    signal_id: v2_sig(&name),
+                    data_point: Some(p2::Datapoint { timestamp: ts(i64::MAX, -1), value: v2_dp(k).value }),
+                },
+                7 => p2::PublishValueRequest {
+                    signal_id: v2_sig(&name),
+                    data_point: Some(p2::Datapoint { timestamp: ts(i64::MIN, i32::MAX), value: v2_dp(k).value }),
+                },
+                8 => p2::PublishValueRequest { signal_id: Some(p2::SignalId { signal: None }), data_point: None },
+                9 => p2::PublishValueRequest {
+                    signal_id: v2_sig(&name),
+                    data_point: Some(p2::Datapoint { timestamp: ts(-62135596801, 0), value: v2_dp(k).value }),
+                },
+                _ => return -2,
+            };
+            code_of(v2.publish_value(with_auth(req, hdr)).await)
+        }
+        // ---------------- kuksa.val.v2 OpenProviderStream
+        13 => {
+            use p2::open_provider_stream_request::Action as A;
+            let act = |a: Option<A>| p2::OpenProviderStreamRequest { action: a };
+            let mut dps = HashMap::new();
+            let reqs = match variant {
+                1 => vec![],
+                2 => vec![act(None)],
+                3 => vec![act(Some(A::ProvideActuationRequest(p2::ProvideActuationRequest { actuator_identifiers: vec![] })))],
+                4 => vec![act(Some(A::ProvideActuationRequest(p2::ProvideActuationRequest {
+                    actuator_identifiers: vec![p2::SignalId { signal: None }],
+                })))],
+                5 => {
+                    dps.insert(i32::MAX, v2_dp(k));
+                    vec![act(Some(A::PublishValuesRequest(p2::PublishValuesRequest { request_id: -1, data_points: dps })))]
+                }
+                6 => vec![act(Some(A::BatchActuateStreamResponse(p2::BatchActuateStreamResponse { signal_id: None, error: None })))],
+                7 => {
+                    dps.insert(id, p2::Datapoint { timestamp: None, value: None });
+                    vec![act(Some(A::PublishValuesRequest(p2::PublishValuesRequest { request_id: 0, data_points: dps })))]
+                }
+                8 => {
+                    let p = act(Some(A::ProvideActuationRequest(p2::ProvideActuationRequest {
+                        actuator_identifiers: vec![v2_sig(&sig_name(9)).unwrap(), v2_sig(&sig_name(9)).unwrap()],
+                    })));
+                    vec![p.clone(), p]
+                }
+                9 => vec![act(Some(A::ProvideActuationRequest(p2::ProvideActuationRequest {
+                    actuator_identifiers: vec![v2_sig(&long(100_000)).unwrap(), v2_sig("").unwrap()],
+                })))],
+                10 => {
+                    dps.insert(id, p2::Datapoint { timestamp: ts(i64::MAX, i32::MIN), value: Some(p2::Value { typed_value: None }) });
+                    vec![act(Some(A::PublishValuesRequest(p2::PublishValuesRequest { request_id: i32::MIN, data_points: dps })))]
+                }
+                _ => return -2,
+            };
+            first(v2.open_provider_stream(with_auth(tokio_stream::iter(reqs), hdr)).await).await
+        }
+        // ---------------- sdv Broker
+        15 => {
+            let datapoints = match variant {
+                1 => vec![],
+                2 => vec!["".to_string()],
+                3 => vec![long(100_000)],
+                4 => (0..10_000).map(|_| name.clone()).collect(),
+                _ => return -2,
+            };
+            code_of(sb.get_datapoints(with_auth(ps::GetDatapointsRequest { datapoints }, hdr)).await)
+        }
+        16 => {
+            let mut m = HashMap::new();
+            match variant {
+                1 => {}
+                2 => {
+                    m.insert(name.clone(), ps::Datapoint { timestamp: None, value: None });
+                }
+                3 => {
+                    m.insert(name.clone(), ps::Datapoint { timestamp: None, value: Some(ps::datapoint::Value::FailureValue(99)) });
+                }
+                4 => {
+                    m.insert("Srv.Unknown".to_string(), sdv_dp(k));
+                }
+                5 => {
+                    m.insert("".to_string(), ps::Datapoint { timestamp: ts(i64::MAX, -1), value: None });
+                }
+                6 => {
+                    m.insert(long(100_000), sdv_dp(k));
+                }
+                _ => return -2,
+            }
+            code_of(sb.set_datapoints(with_auth(ps::SetDatapointsRequest { datapoints: m }, hdr)).await)
+        }
+        17 => {
+            let query = match variant {
+                1 => "".to_string(),
+                2 => "SELECT".to_string(),
+                3 => "SELECT LAG()".to_string(),
+                4 => format!("SELECT {} WHERE {}", name, vec![format!("{} > 1", name); 2000].join(" AND ")),
+                5 => format!("SELECT {} WHERE {} BETWEEN 1 AND 20", name, name),
+                6 => "SELECT \u{0} \u{feff} 'é".to_string(),
+                7 => format!("SELECT {}", vec!["("; 3000].join("")),
+                8 => format!("SELECT 5, {} WHERE 1", name),
+                9 => format!("SELECT (SELECT (SELECT {}))", name),
+                10 => format!("SELECT CAST({} AS INT), {}[1], LAG({}, 1, 2)", name, name, name),
+                11 => format!("SELECT {} WHERE {} IN (SELECT {})", name, name, name),
+                // the longest / deepest texts of each recursive shape that the size check lets through
+                12 => format!("SELECT {} WHERE {}({} > 1)", name, "NOT ".repeat(32), name),
+                13 => format!("SELECT {} WHERE {}{} > 1", name, format!("{} > 1 AND ", name).repeat(31), name),
+                14 => format!("SELECT {}{}{}", "(SELECT ".repeat(31), name, ")".repeat(31)),
+                15 => format!("SELECT {}1", "-".repeat(32)),
+                16 => format!("SELECT {} WHERE {}{}{}", name, "(".repeat(32), name, ")".repeat(32)),
+                17 => format!("SELECT {} WHERE {} > 1{}", name, name, format!(" OR {} BETWEEN 1 AND 2", name).repeat(20)),
+                18 => format!("SELECT {}", vec![name.clone(); 120].join(",")),
+                19 => format!("SELECT {} WHERE {}", name, vec!["("; 33].join("")),
+                21 => format!("SELECT {} WHERE {}({} > 1)", name, "NOT ".repeat(33), name),
+                22 => format!("SELECT {}", vec![name.clone(); 200].join(",")),
+                23 => format!("SELECT {} WHERE {}1 > {}", name, "-".repeat(33), name),
+                20 => "x".repeat(4097),
+                _ => return -2,
+            };
+            first(sb.subscribe(with_auth(ps::SubscribeRequest { query }, hdr)).await).await
+        }
+        18 => {
+            let names = match variant {
+                1 => vec![],
+                2 => vec!["".to_string()],
+                3 => vec![long(100_000), "**".to_string()],
+                _ => return -2,
+            };
+            code_of(sb.get_metadata(with_auth(ps::GetMetadataRequest { names }, hdr)).await)
+        }
+        // ---------------- sdv Collector
+        19 => {
+            let rm = |name: String, data_type: i32, change_type: i32| ps::RegistrationMetadata {
+                name,
+                data_type,
+                description: "d".into(),
+                change_type,
+            };
+            let list = match variant {
+                1 => vec![],
+                2 => vec![rm(format!("Srv.New{}", k), 99, 1)],
+                3 => vec![rm(format!("Srv.New{}", k), 4, 99)],
+                4 => vec![rm("".into(), 4, 1)],
+                5 => vec![rm(long(100_000), 4, 1)],
+                6 => vec![rm(format!("Srv.New{}", k), -1, -1)],
+                7 => vec![rm("Srv..X".into(), 4, 1), rm("Srv.*".into(), 4, 1)],
+                8 => (0..2000).map(|i| rm(format!("Srv.Bulk{}", i), (i % 30) as i32, (i % 5) as i32)).collect(),
+                _ => return -2,
+            };
+            code_of(sc.register_datapoints(with_auth(ps::RegisterDatapointsRequest { list }, hdr)).await)
+        }
+        20 | 21 => {
+            let mut m = HashMap::new();
+            match variant {
+                1 => {}
+                2 => {
+                    m.insert(id, ps::Datapoint { timestamp: None, value: None });
+                }
+                3 => {
+                    m.insert(i32::MAX, sdv_dp(k));
+                }
+                4 => {
+                    m.insert(id, ps::Datapoint { timestamp: None, value: Some(ps::datapoint::Value::FailureValue(-7)) });
+                }
+                5 => {
+                    m.insert(id, ps::Datapoint { timestamp: ts(i64::MAX, -1), value: sdv_dp(k).value });
+                }
+                6 => {
+                    m.insert(
+                        id,
+                        ps::Datapoint {
+                            timestamp: None,
+                            value: Some(ps::datapoint::Value::StringArray(ps::StringArray { values: vec!["x".repeat(1000); 1000] })),
+                        },
+                    );
+                }
+                7 => {
+                    m.insert(id, ps::Datapoint { timestamp: ts(i64::MIN, i32::MIN), value: None });
+                    m.insert(-1, ps::Datapoint { timestamp: None, value: None });
+                }
+                _ => return -2,
+            }
+            if rpc == 20 {
+                code_of(sc.update_datapoints(with_auth(ps::UpdateDatapointsRequest { datapoints: m }, hdr)).await)
+            } else if variant == 1 {
+                let reqs: Vec<ps::StreamDatapointsRequest> = vec![];
+                first(sc.stream_datapoints(with_auth(tokio_stream::iter(reqs), hdr)).await).await
+            } else {
+                let reqs = vec![ps::StreamDatapointsRequest { datapoints: m.clone() }, ps::StreamDatapointsRequest { datapoints: m }];
+                first(sc.stream_datapoints(with_auth(tokio_stream::iter(reqs), hdr)).await).await
+            }
+        }
+        _ => -2,
+    }
 }
